@@ -120,6 +120,12 @@ def _kw(stmt, for_np: bool):
     return out
 
 
+import operator as _operator  # noqa: E402
+
+_OPERATORS = {"add": _operator.add, "subtract": _operator.sub, "multiply": _operator.mul, "divide": _operator.truediv,
+              "matmul": _operator.matmul, "negative": _operator.neg, "positive": _operator.pos, "power": None}      # (Tensor defines no __abs__)
+
+
 class Exec:
     """Executes statements on one backend.  backend = "mg" (MyGrad tensors) or "np" (NumPy twin)."""
 
@@ -175,7 +181,12 @@ class Exec:
         L = self.lib
         xs = [self.opnd(o) for o in s["a"]]
         kw = _kw(s, self.be == "np")
-        if f in ("add", "subtract", "multiply", "divide", "maximum", "minimum", "matmul"):
+        sp = s.get("sp")       # spelling: None = library function, "op" = Python operator, "method" = method of operand 0
+        if sp == "op" and f in _OPERATORS and not kw:
+            r = _OPERATORS[f](*xs) if f != "power" else xs[0] ** s["p"]
+        elif sp == "method" and f in ("sum", "mean", "prod", "max", "min", "var"):
+            r = getattr(xs[0], f)(**kw)
+        elif f in ("add", "subtract", "multiply", "divide", "maximum", "minimum", "matmul"):
             r = getattr(L, f)(*xs, **kw)
         elif f == "power":
             r = L.power(xs[0], s["p"], **kw)
